@@ -45,3 +45,34 @@ Example C19_pack_nonvacuous :
     /\ pack_result 32 (fun i => if Nat.eqb i 0 then 5 else 16) ops = 4294771969.
 Proof. eexists. split; [reflexivity|]. split; vm_compute; reflexivity. Qed.
 Print Assumptions C19_pack_nonvacuous.
+
+(* ---- (a) canonicalize_affine.py (generated model Gen/CanonAffine.v) --------------------------- *)
+From Snax Require Import Model.PyLib Model.XdslAffine Gen.CanonAffine Proofs.C19CanonProofs.
+
+(* Whenever canonicalize_expr returns (no assertion failure, no RecursionError), the result evaluates
+   like the input at every point (dims and symbols any integers).  // and % are floor division and
+   modulo; no positivity side condition is needed: the only div/mod rewrites are x // 1 = x, x % 1 = 0. *)
+Theorem C19_canon_eval :
+  forall fuel e r, canonicalize_expr fuel e = Some r -> forall dv sv, eval dv sv r = eval dv sv e.
+Proof. exact canon_eval. Qed.
+Print Assumptions C19_canon_eval.
+
+Theorem C19_canon_map_eval :
+  forall fuel m m', canonicalize_map fuel m = Some m' ->
+    num_dims m' = num_dims m /\ num_symbols m' = num_symbols m /\
+    forall dv sv, map_eval dv sv m' = map_eval dv sv m.
+Proof. exact canon_map_eval. Qed.
+Print Assumptions C19_canon_map_eval.
+
+(* non-vacuity: reassociation + reordering + distribution really happen *)
+Example C19_canon_nonvacuous :
+  let e := EBin KMul (EBin KAdd (EBin KAdd (EDim 1) (ECst 3)) (EDim 0)) (ECst 4) in
+  exists r, canonicalize_expr 50 e = Some r /\ r <> e.
+Proof. eexists. split; [vm_compute; reflexivity | discriminate]. Qed.
+Print Assumptions C19_canon_nonvacuous.
+
+(* known finding F22 (class canon_sum_folds_to_leaf): the assert after reassociation fails *)
+Example C19_canon_assert_refuted :
+  canonicalize_expr 50 (EBin KAdd (EBin KAdd (EDim 0) (ECst 2)) (ECst (-2))) = None.
+Proof. vm_compute. reflexivity. Qed.
+Print Assumptions C19_canon_assert_refuted.
